@@ -480,6 +480,32 @@ def _stabilise(pid, v):
                   "calls) " + str(v["detail"])
 
 
+def _reach(pid, mod):
+    """Thorough tier: which lines of the files this property is anchored in did a sample
+    of its generated cases execute (coverage.py, separate process)?  Evidence about the
+    generators, never a verdict."""
+    import subprocess
+    try:
+        r = subprocess.run([sys.executable, os.path.join(env.VERIF_DIR, "tools", "reach.py"),
+                            pid, "--n", "300", "--json"], capture_output=True, text=True,
+                           timeout=1500, env=dict(os.environ, VERIF_REPO=env.REPO))
+        for line in r.stdout.splitlines():
+            if line.startswith("REACH-JSON "):
+                data = json.loads(line[len("REACH-JSON "):])
+                anchored = set()
+                try:
+                    for l in open(os.path.join(env.VERIF_DIR, "properties.jsonl")):
+                        p = json.loads(l)
+                        if p["id"] == pid:
+                            anchored = set(p["anchors"]["files"])
+                except Exception:
+                    pass
+                return {k: v for k, v in data.items() if k in anchored or not anchored}
+        return {"error": (r.stderr or r.stdout)[-300:]}
+    except Exception as e:      # noqa
+        return {"error": repr(e)}
+
+
 def run_replay(mod, pid, path):
     shim = env.setup()
     with open(path) as f:
@@ -680,6 +706,8 @@ def _main(mod, pid, args, shim, t0):
     )
     if enum_phases:
         cov["exhaustive_domain"] = "; ".join(p.domain(tier) for p in enum_phases)
+    if tier == "thorough" and os.environ.get("VERIF_NO_REACH") != "1":
+        cov["line_reach"] = _reach(pid, mod)
     ev = dict(property_id=pid, tier=tier, seed=seed, level="exploration",
               coverage=cov, assumptions=list(mod.ASSUMPTIONS), wall_s=round(wall, 2),
               violations=len(found))
